@@ -13,26 +13,30 @@
 (***************************************************************************)
 EXTENDS TlsAdmitRules
 CONSTANT ClientAuthFix
-VARIABLES cfg, st, cred, conn
-vars == <<cfg, st, cred, conn>>
+VARIABLES cfg, st, cred, conn, files
+vars == <<cfg, st, cred, conn, files>>
 NoPeer == [class |-> "-", send |-> "-", ver |-> "-", sni |-> "-"]
 
 TypeOK == /\ cfg \in Cfgs /\ st \in {"new", "disabled", "reject", "ready"}
           /\ cred \in Creds(cfg.role) \cup {NoPeer}
           /\ conn \in {"idle", "refused", "open", "data"}
           /\ (conn # "idle" => st = "ready" /\ cred # NoPeer)
+          /\ files \in Envs(cfg) /\ (files # "intact" => st = "ready")
 
-Init == cfg \in Cfgs /\ st = "new" /\ cred = NoPeer /\ conn = "idle"
+Init == cfg \in Cfgs /\ st = "new" /\ cred = NoPeer /\ conn = "idle" /\ files = "intact"
 \* GetServerTLSConfig / GetClientTLSConfig (called by NewMuxReceiverProvider, NewMuxEstablisherProvider,
 \* makeServerOptions, buildTLSTCPClient)
-Start == st = "new" /\ st' = CodeStartup(cfg) /\ UNCHANGED <<cfg, cred, conn>>
+Start == st = "new" /\ st' = CodeStartup(cfg) /\ UNCHANGED <<cfg, cred, conn, files>>
+\* environment: the CA bundle file disappears under the running endpoint, before the peer dials
+RemoveCA == /\ st = "ready" /\ conn = "idle" /\ files = "intact" /\ Removable(cfg)
+            /\ files' = "caRemoved" /\ UNCHANGED <<cfg, st, cred, conn>>
 \* crypto/tls handshake driven by the assembled tls.Config (first write: yamux Ping / gRPC transport)
 Dial(c) == /\ st = "ready" /\ conn = "idle" /\ cred' = c
            /\ conn' = IF CodeAdmits(ClientAuthFix, cfg, c) THEN "open" ELSE "refused"
-           /\ UNCHANGED <<cfg, st>>
+           /\ UNCHANGED <<cfg, st, files>>
 \* one application byte each way
-Exchange == conn = "open" /\ conn' = "data" /\ UNCHANGED <<cfg, st, cred>>
-Next == Start \/ (\E c \in Creds(cfg.role) : Dial(c)) \/ Exchange
+Exchange == conn = "open" /\ conn' = "data" /\ UNCHANGED <<cfg, st, cred, files>>
+Next == Start \/ RemoveCA \/ (\E c \in Creds(cfg.role) : Dial(c)) \/ Exchange
 Spec == Init /\ [][Next]_vars
 
 Admitted == conn \in {"open", "data"}
